@@ -1,5 +1,8 @@
 /-
-  Helper lemmas for C10: the invariant of Model/Timers.lean is preserved by every event.
+  Helper lemmas for C10 (Model/Timers.lean, Spec/C10.lean):
+    * `inv_tpl_new` ... `inv_finish_delete`, `inv_next`: the invariant `Inv` is preserved by EVERY event;
+    * `Ghost`, `ghost_next`: the history functions (clock, lastRefresh, withinTTL) agree with the state;
+    * `step_ok`, `trace_ok`: every step / trace of the model satisfies the executable trace predicates.
 -/
 import IpfixModel.Spec.C10
 namespace Ipfix.C10
